@@ -79,6 +79,8 @@ type Script struct {
 	Default Action            `json:"default"`
 	PerType map[string]Action `json:"pertype,omitempty"` // key: <type's package path>.<type name>
 	OnAlias *Action           `json:"onalias,omitempty"`
+	// NewDefer (mode new): New(c) itself registers one Defer callback rendering these pieces (type name "New")
+	NewDefer []Piece `json:"newdefer,omitempty"`
 }
 
 // Call is one entry of the call log.
@@ -179,6 +181,25 @@ func (g *newer) New(c gengo.Context) gengo.Generator {
 	calls = append(calls, Call{Seq: len(calls), Kind: "new", Gen: g.script.Name, Pkg: c.Package("").Pkg().Path(), Instance: n.st.instance()})
 	return n
 }
+// newDefer: the callback a GeneratorNewer registers from inside New
+func newDefer(c gengo.Context, s *Script, st *state) {
+	if len(s.NewDefer) == 0 {
+		return
+	}
+	deferIDs++
+	id := deferIDs
+	pkg := c.Package("").Pkg().Path()
+	calls = append(calls, Call{Seq: len(calls), Kind: "register", Gen: s.Name, Pkg: pkg, Type: "New", Instance: st.instance(), DeferIdx: id})
+	c.Defer(func(c gengo.Context) error {
+		dc := Call{Seq: len(calls), Kind: "defer", Gen: s.Name, Pkg: c.Package("").Pkg().Path(), Type: "New", Instance: st.instance(), DeferIdx: id, FileUnchanged: outFileUnchanged(c, s.Name)}
+		var into strings.Builder
+		render(c, s.NewDefer, s.Name, "New", st, &into, nil)
+		dc.Rendered = into.String()
+		calls = append(calls, dc)
+		return nil
+	})
+}
+
 func (g *newer) GenerateType(c gengo.Context, t *types.Named) error {
 	return generate(g.script, &g.st, c, t.Obj(), false)
 }
@@ -188,6 +209,7 @@ type newerAlias struct{ newer }
 func (g *newerAlias) New(c gengo.Context) gengo.Generator {
 	n := &newerAlias{newer{script: g.script}}
 	calls = append(calls, Call{Seq: len(calls), Kind: "new", Gen: g.script.Name, Pkg: c.Package("").Pkg().Path(), Instance: n.st.instance()})
+	newDefer(c, g.script, &n.st)
 	return n
 }
 func (g *newerAlias) GenerateAliasType(c gengo.Context, t *types.Alias) error {
